@@ -836,7 +836,7 @@ struct C05 : Property
 		if (!s.known.empty())
 			ctx.fail("C05:nodes-alive-after-release", "%zu node(s) are still alive after every handle was released", s.known.size());
 		if (!g_alloc.live.empty())
-			ctx.fail("C05:leak@" + g_alloc.site_of(g_alloc.live.begin()->second), "%zu allocation(s) remain after every handle was released:%s", g_alloc.live.size(),
+			ctx.fail("C05:leak@" + g_alloc.first_live_site(), "%zu allocation(s) remain after every handle was released:%s", g_alloc.live.size(),
 			         g_alloc.describe_live().c_str());
 	}
 	std::set<std::pair<void *, std::string>> replaced_keys;
